@@ -57,12 +57,18 @@ func documents() {
 		runDocument(docPlan{kinds: []int{ki}, version: []pdf.Version{pdf.V1_7, pdf.V2_0}[e.Rand.IntN(2)], nStr: 60, class: class}, "wide")
 	}
 	// several fonts per page
-	nMulti := e.Pick(250, 6000)
+	nMulti := e.Pick(180, 6000)
 	for i := 0; i < nMulti; i++ {
 		n := 2 + e.Rand.IntN(2)
 		var ks []int
 		for j := 0; j < n; j++ {
-			ks = append(ks, e.Rand.IntN(len(kinds)))
+			ki := e.Rand.IntN(len(kinds))
+			for kinds[ki].parentCMap {
+				// these only appear alone on a page: every failure of their document is
+				// attributed to the known finding about CMaps with a parent
+				ki = e.Rand.IntN(len(kinds))
+			}
+			ks = append(ks, ki)
 		}
 		if e.Rand.IntN(5) == 0 {
 			ks[1] = ks[0] // two instances of the same font kind on one page
